@@ -9,7 +9,17 @@ use std::collections::BTreeMap;
 
 pub fn generate(r: &mut Rng, tier: Tier) -> Scenario {
     let t2 = r.chance(1, if tier == Tier::Quick { 12 } else { 10 });
-    let (world, g, c, _) = super::draw_world(r, |_g, _c| {});
+    let overlap = r.chance(1, 6);
+    let (world, g, c, _) = super::draw_world(r, |g, _c| {
+        if overlap {
+            // shared code with many diagnostics: where a schedule-dependent choice among several
+            // functions' exits would show in the output
+            g.make_overlap_heavy();
+            g.discipline = 2;
+            g.undefined_label = false;
+            g.duplicate_label = false;
+        }
+    });
     let k = if t2 {
         if tier == Tier::Quick { 4 } else { 8 }
     } else if tier == Tier::Quick {
@@ -18,7 +28,7 @@ pub fn generate(r: &mut Rng, tier: Tier) -> Scenario {
         24
     };
     let entropy: Vec<u64> = (0..k).map(|_| r.next_u64() >> 11).collect();
-    let personality = if world.files.len() > 1 { *r.pick(&[Personality::Strict, Personality::Fresh, Personality::SameId]) } else { Personality::Strict };
+    let personality = if world.files.len() > 1 { *r.pick(&[Personality::Strict, Personality::Fresh, Personality::SameId, Personality::Lsp]) } else { *r.pick(&[Personality::Strict, Personality::Lsp]) };
     let t2spec = if t2 {
         let mut modes: Vec<Vec<String>> = Vec::new();
         for base in [vec!["--json"], vec!["--compact", "--no-color"], vec!["--no-color"]] {
@@ -140,8 +150,7 @@ pub fn check(scn: &Scenario, stats: &mut Stats) -> Vec<Violation> {
     for (n, &e) in scn.entropy.iter().enumerate() {
         // the library entry point on the first two schedules, the coded pipeline (same code path,
         // exposes codes and the graph) on all of them
-        let mut spec = LintSpec::new(&scn.world, e, Api::Coded);
-        spec.personality = scn.personality;
+        let mut spec = LintSpec::of(scn, e, Api::Coded);
         spec.want_snapshot = true;
         let o = lint::run(&spec);
         stats.inc("t1_incarnations");
@@ -155,8 +164,7 @@ pub fn check(scn: &Scenario, stats: &mut Stats) -> Vec<Violation> {
         }
         let o_coded = o;
         if n < 2 {
-            let mut spec = LintSpec::new(&scn.world, e, Api::Run);
-            spec.personality = scn.personality;
+            let spec = LintSpec::of(scn, e, Api::Run);
             let o = lint::run(&spec);
             stats.inc("t1_incarnations");
             if o.panic.is_some() || o.import_budget_exceeded {
@@ -251,8 +259,7 @@ pub fn check(scn: &Scenario, stats: &mut Stats) -> Vec<Violation> {
     }
     // same process, second run
     if let Some(&e) = scn.entropy.first() {
-        let mut spec = LintSpec::new(&scn.world, e, Api::RunTwice);
-        spec.personality = scn.personality;
+        let spec = LintSpec::of(scn, e, Api::RunTwice);
         let o = lint::run(&spec);
         stats.inc("t1_incarnations");
         if o.panic.is_none() {
